@@ -29,6 +29,26 @@ CHECKS = {
    "Generated frame sequences go through h2's Codec write side (scripted short writes, Pending, vectored on/off, multi-segment Buf payloads, max-frame-size changes) and must be read back identically, within the size limit, by the independent parser; reference-serialised frames of all ten types plus unknown types (all flags, padding, priority, reserved bits, CONTINUATION chains) must be parsed by h2 to the expected values for every generated read chunking, and a frame header announcing more than max_recv_frame_size must be refused with FRAME_SIZE_ERROR before any payload arrives.",
    "Trusts refmodel::wire (round-trip self-test; must parse every byte h2 emits). Read side uses zero padding only (receivers MAY reject non-zero padding). GOAWAY debug data ≤ 1000 B as h2's callers only pass short static strings.",
    "DESIGN.md §3 C12"),
+ "C01": ("sim-pair", "exploration",
+   "property-based testing (stateful/model-based): generated client+server programs, configurations, schedules and chunkings on a deterministic simulator; oracle = sent-vs-received comparison of the API event log (heads, content-addressed body bytes, trailers, clean end) per stream",
+   "Generated h2-client ↔ h2-server exchanges (request/response/interim/push programs with bodies around every size constant, windows 1…1 MiB, frame sizes, buffer limits, resets and drops) run on a single-threaded executor that polls a task only when woken, over a transport that cuts reads and writes by a generated tape. Whatever the receive API returns must be a prefix of what the send API accepted on the same stream (heads in order, bytes checked against a position-keyed content function, trailers), a clean end only for completely sent messages, and complete delivery in cooperative runs.",
+   "Trusts the simulator's transport/executor contracts. Both endpoints are h2; symmetric encode/decode mistakes are caught by the independent tap (frame parser + reference HPACK decoder) that also runs on every case.",
+   "DESIGN.md §3 C01"),
+ "C02": ("sim-pair", "exploration",
+   "property-based testing: generated exchanges on the deterministic simulator; oracle = independent flow-control accountant over the tapped wire (credit = acked initial window ± acked SETTINGS deltas + delivered WINDOW_UPDATEs − DATA sent)",
+   "Every DATA frame either endpoint writes is checked, at the step its first byte reached the transport, against the stream and connection credit the peer had granted by then (grants counted once delivered, SETTINGS_INITIAL_WINDOW_SIZE changes from the wire position of the sender's ACK), over generated programs with windows 1…2^20, mid-connection window changes, reserve_capacity loops, resets and partial writes.",
+   "A grant delivered in the same executor step as the DATA frame is given to the sender (most permissive). Accountant arithmetic in i64.",
+   "DESIGN.md §3 C02"),
+ "C04": ("sim-pair", "exploration",
+   "property-based testing: generated exchanges with resets/drops at every position; oracle = RFC 9113 §5.1/§6 sender-side stream automaton run over each endpoint's tapped output",
+   "The frames each endpoint emits are run through a sender-side automaton written from RFC 9113: id order and parity, HEADERS/PUSH_PROMISE opening, nothing on idle streams, only permitted frames after END_STREAM/RST_STREAM (extra RST_STREAMs must be answers to peer frames), DATA only between final HEADERS and trailers, contiguous header blocks, stream-0 discipline, PUSH_PROMISE only while push is enabled and the parent is open.",
+   "Clauses that depend on what the peer has sent use delivery times from the tap (a frame counts as known to the endpoint once its first byte was delivered).",
+   "DESIGN.md §3 C04"),
+ "C06": ("sim-pair", "exploration",
+   "property-based testing over schedules: cooperative generated programs on an executor that polls only woken tasks; oracle = no application task pending at quiescence; stalled cases re-run with spurious polls to tell a lost wake-up from an accounting stall",
+   "Cooperative programs (every reader reads and releases, every sender sends what it is assigned, connections driven by their own tasks) are run under generated schedules, chunkings, windows ≥ 1, limits ≥ 1 and mid-connection window changes. At quiescence (nothing runnable, nothing in flight) every application task must have finished. A stalled case is re-polled generously: completing then proves a lost wake-up; stalling still is an accounting stall.",
+   "Bounded liveness only (deadlock/lost-wakeup freedom per generated program and schedule), not fairness over unbounded time.",
+   "DESIGN.md §3 C06"),
 }
 
 NOT_YET = "check not built yet in this round (machinery in progress; see DESIGN.md §5 build order)"
@@ -66,6 +86,7 @@ def main():
         "engines": [
             {"name": "hpack-enc", "path": "harness/src/eng_hpack.rs", "serves_properties": ["C10"], "kind_free_text": "proptest-driven generated histories through h2's Codec write side; strict reference HPACK decoder as oracle"},
             {"name": "codec", "path": "harness/src/eng_codec.rs", "serves_properties": ["C12"], "kind_free_text": "h2 Codec as Sink/Stream over a scripted transport vs refmodel::wire"},
+            {"name": "sim-pair", "path": "harness/src/{sim,sim_pair,eng_pair,oracles,tapx}.rs", "serves_properties": ["C01", "C02", "C04", "C06"], "kind_free_text": "deterministic simulator: h2 client and server on a waker-faithful single-thread executor over a scripted transport with an independent tap; proptest-generated programs/schedules/chunkings"},
             {"name": "hpack-dec", "path": "harness/src/eng_hpack.rs", "serves_properties": ["C11"], "kind_free_text": "differential h2 decoder vs RFC 7541 reference on generated/mutated/hostile blocks; whole-vs-split through Codec; exhaustive Huffman/integer sub-spaces"},
         ],
         "checks": checks,
